@@ -487,6 +487,20 @@ class Executor:
             if (isinstance(node, ast.Call) and isinstance(node.func, ast.Name) and node.func.id == "set"
                     and not node.args and isinstance(hint, TSet)):
                 return mk_set(hint, z3.K(sort_of(hint.k), z3.BoolVal(False)), z3.IntVal(0))
+        if hint is not None and isinstance(hint, TSet) and isinstance(node, ast.Set):
+            elems = []
+            for e in node.elts:  # {x} where x is Optional but known not None here
+                xv = ev.expr(e)
+                if isinstance(xv.t, TOpt) and xv.t.t == hint.k:
+                    self.side_obligation(ev.st, "none-deref", z3.Not(opt_is_none(xv)), node, list(ev.guard))
+                    xv = opt_val(xv)
+                elems.append(coerce_to(xv, hint.k))
+            mem = z3.K(sort_of(hint.k), z3.BoolVal(False))
+            card = z3.IntVal(0)
+            for xv in elems:
+                card = z3.If(z3.Select(mem, xv.z), card, card + 1)
+                mem = z3.Store(mem, xv.z, z3.BoolVal(True))
+            return mk_set(hint, mem, card)
         v = ev.expr(node)
         if hint is not None and v.t != hint:
             if isinstance(hint, TDict) and isinstance(v.t, TDict) and hint.k == v.t.k and hint.v == REAL and v.t.v == INT:
